@@ -11,9 +11,10 @@ FIELD_PROPS = {
     "reg": ["C03", "C02"], "regdom": ["C03", "C02"], "vir": ["C03", "C02"], "greek": ["C03", "C02"], "hebrew": ["C03", "C02"],
     "kana": ["C03", "C02"], "ld": ["C03", "C02"], "rd": ["C03", "C02"],
     "mdl": ["C03", "C02"], "mdr": ["C03", "C02"], "aidx": ["C03", "C02"], "eaidx": ["C03", "C02"], "own": ["C03", "C02"],
-    "wm1": ["C11", "C04"], "wm2": ["C11", "C04"], "wm3": ["C11", "C04"], "wm4": ["C11", "C04"], "wm5": ["C11", "C04"], "osp4": ["C12", "C05"],
-    "lc1": ["C10", "C04"], "lc2": ["C10"], "lc3": ["C10", "C04"],
-    "osp": ["C12", "C05"], "nsp": ["C12", "C06"], "osp2": ["C12", "C05"], "nsp2": ["C12", "C06"], "osp3": ["C12", "C05"], "nsp3": ["C12", "C06"],
+    "wm1": ["C11", "C04", "C07"], "wm2": ["C11", "C04", "C07"], "wm3": ["C11", "C04", "C07"], "wm4": ["C11", "C04", "C07"], "wm5": ["C11", "C04", "C07"], "osp4": ["C12", "C05", "C07"],
+    "lc1": ["C10", "C04", "C07"], "lc2": ["C10", "C07"], "lc3": ["C10", "C04", "C07"], "lc4": ["C10", "C04", "C07"], "lc5": ["C10", "C06", "C07"],
+    "wm6": ["C11", "C04", "C07"], "wm7": ["C11", "C04", "C07"], "osp5": ["C12", "C05", "C07"], "osp6": ["C12", "C05", "C07"], "nsp4": ["C12", "C06", "C07"], "nsp5": ["C12", "C06", "C07"],
+    "osp": ["C12", "C05", "C07"], "nsp": ["C12", "C06", "C07"], "osp2": ["C12", "C05", "C07"], "nsp2": ["C12", "C06", "C07"], "osp3": ["C12", "C05", "C07"], "nsp3": ["C12", "C06", "C07"],
     "bidi1": ["C09", "C04"], "bidi2": ["C09", "C04"], "bidi3": ["C09", "C04"], "bidi4": ["C09", "C04"], "bidi5": ["C09", "C04"],
 }
 TOOL_FIELDS = {"tiling", "sigexc", "sigascii"}
